@@ -93,13 +93,16 @@ func (wheel *Wheel) fetchWheelData(interval time.Duration) *wheelData {
 	}
 
 	for {
+		verifYield(VerifSiteWheelFetchLoadPosition)
 		var position = int(atomic.LoadInt64(&wheel.position))
 		var slot = (position + index) % wheel.bucketsSize
+		verifYield(VerifSiteWheelFetchLoadSlot)
 		// 由于缺少lock控制，这里有可能取到已经被关闭的chan，但这没有关系，已经关闭的说明时刻已经过去了，立即返回就好
 		var data = (*wheelData)(atomic.LoadPointer(&wheel.channels[slot]))
 
 		// a tick may have advanced position between the two loads, in which case the slot just read may
 		// already hold the channel of the next revolution: only trust the slot if position did not move
+		verifYield(VerifSiteWheelFetchReloadPosition)
 		if position == int(atomic.LoadInt64(&wheel.position)) {
 			return data
 		}
@@ -121,15 +124,20 @@ func (wheel *Wheel) goLoop(later Later) {
 }
 
 func (wheel *Wheel) onTicker() {
+	verifYield(VerifSiteWheelTickLoadPosition)
 	var position = int(atomic.LoadInt64(&wheel.position))
+	verifYield(VerifSiteWheelTickLoadSlot)
 	var lastItem = (*wheelData)(atomic.LoadPointer(&wheel.channels[position]))
 
 	// 修改position: 必须先于修改chan, 否则在两步之间到达的请求会取到下一圈的chan, 迟到整整一圈
+	verifYield(VerifSiteWheelTickStorePosition)
 	atomic.StoreInt64(&wheel.position, int64((position+1)%wheel.bucketsSize))
 
 	// 修改chan
+	verifYield(VerifSiteWheelTickStoreSlot)
 	atomic.StorePointer(&wheel.channels[position], unsafe.Pointer(&wheelData{c: make(chan struct{})}))
 
 	// 关闭chan
+	verifYield(VerifSiteWheelTickClose)
 	close(lastItem.c)
 }
